@@ -8,6 +8,7 @@ import OsloPolicy.Model.External
 import OsloPolicy.Model.SampleGen
 import OsloPolicy.Model.Tools
 import OsloPolicy.Model.Checker
+import OsloPolicy.Model.Literal
 import OsloPolicy.Generated.PyTables
 /-
 JSON-lines driver: one request per line on stdin, one answer per line on stdout.
@@ -97,9 +98,12 @@ def envOf (j : Json) : Env :=
   let lits := getD j "lit"
   let rem := getD j "remote"
   { lower := pyLower
-    lit := fun k => match lits.getObjVal? (l2s k) with
-      | .ok (.str s) => some (s2l s)
-      | _ => none
+    -- the partial literal model decides where it makes a claim; elsewhere the harness-supplied value is used
+    lit := fun k => match litKnown k with
+      | some r => r
+      | none => (match lits.getObjVal? (l2s k) with
+        | .ok (.str s) => some (s2l s)
+        | _ => none)
     remote := fun k url _ =>
       let post : PostResult := match rem.getObjVal? (l2s url) with
         | .ok (.str "timeout") => .timeout
@@ -110,6 +114,22 @@ def envOf (j : Json) : Env :=
         | _ => .transportError
       let tls : TlsFiles := ⟨getBoolD j "cert_ok" true, getBoolD j "key_ok" true, getBoolD j "ca_ok" true⟩
       if k = "https".toList then httpsDecision tls post else httpDecision post }
+
+/-- left sides on which the partial literal model's claim differs from what the harness observed -/
+def litMismatches (j : Json) : List String :=
+  match getD j "lit" with
+  | .obj kvs => kvs.toList.filterMap fun (k, v) =>
+      let observed : Option Str := match v with | .str s => some (s2l s) | _ => none
+      match litKnown (s2l k) with
+      | some r => if r == observed then none else some k
+      | none => none
+  | _ => []
+
+/-- how many of the supplied left sides the partial literal model decides by itself -/
+def litClaimed (j : Json) : Nat :=
+  match getD j "lit" with
+  | .obj kvs => (kvs.toList.filter fun (k, _) => (litKnown (s2l k)).isSome).length
+  | _ => 0
 
 def rulesOf (j : Json) : Except String Rules := do
   let ents ← (getArrD j "rules").toList.mapM fun kv => match kv with
@@ -237,6 +257,8 @@ def handle (j : Json) : Except String Json := do
           pure (enforce view leafOf (.check (parseValue v) (scopeTypesOf (getD o "scope"))) creds rs)
       pure (Json.str (outcomeStr out))
     pure (Json.mkObj [("out", .arr outs.toArray),
+                      ("lit_mismatch", .arr ((litMismatches j).map Json.str).toArray),
+                      ("lit_claimed", Json.num (litClaimed j)),
                       ("printed", Json.mkObj (rules.entries.map fun (k, t) => (l2s k, Json.str (l2s t.print))))])
   | "check_rules" => do
     let rules ← rulesOf j
